@@ -138,13 +138,34 @@ access(all) contract Cond {
     }
     access(all) fun mkG(): @G { return <- create G() }
     access(all) fun setLimit(_ l: Int) { self.limit = l }
+    // "find, then update": a value returned from inside a for-in loop over a field by a function with post-conditions
+    access(all) var items: [Int]
+    access(all) fun find(_ x: Int): Int {
+        post { result >= -1: "find.post" }
+        for i, v in self.items { if v == x { return i } }
+        return -1
+    }
+    access(all) fun findThenAppend(_ x: Int): Int { let i = self.find(x); self.items.append(x + 100); return i }
+    access(all) struct interface Finder {
+        access(all) var xs: [Int]
+        access(all) fun has(_ x: Int): Bool { post { result == true || result == false: "Finder.post" } }
+    }
+    access(all) struct Shelf: Finder {
+        access(all) var xs: [Int]
+        init() { self.xs = [1, 2, 3] }
+        access(all) fun has(_ x: Int): Bool {
+            for v in self.xs { if v == x { return true } }
+            return false
+        }
+        access(all) fun addIfMissing(_ x: Int): Int { if !self.has(x) { self.xs.append(x) } else { self.xs.remove(at: 0) }; return self.xs.length }
+    }
     access(all) view fun double(_ x: Int): Int { return x * 2 }
     access(all) fun checked(_ x: Int): Int {
         pre { x != 13: "unlucky" }
         post { result == Cond.double(x): "double" }
         return x + x
     }
-    init() { self.limit = 50; self.calls = 0 }
+    init() { self.limit = 50; self.calls = 0; self.items = [5, 6, 7] }
 }`},
 	{Name: "Ext", Src: `
 import Cond from 0x9
@@ -935,6 +956,16 @@ var scenarios = []scenario{
     let cs = [mk, Far.P]
     for c in cs { t = t + c(1, 2).y }
     return [p1.x, p2.x, p3.y, p4.y, b1.xs.length, b2.xs.length, t]`, a, a, a)), Expect: []string{}}}
+	}},
+	{"find-then-update", func(r *Rng) []scnStep {
+		x := 5 + r.Intn(3)
+		return []scnStep{{Kind: "tx", Src: scnTx(impW+"import Cond from 0x9\n", fmt.Sprintf(`        log(Cond.findThenAppend(%d))
+        log(Cond.find(%d) >= 0)
+        log(Cond.findThenAppend(999))
+        var sh = Cond.Shelf()
+        log(sh.addIfMissing(2))
+        log(sh.addIfMissing(9))
+        log(sh.has(9))`, x, x+100)), Expect: []string{fmt.Sprint(x - 5), "true", "-1", "2", "3", "true"}}}
 	}},
 	{"resource-juggling", func(r *Rng) []scnStep {
 		a, b := r.Intn(100), 100+r.Intn(100)
